@@ -51,12 +51,12 @@ fn single_calls(mon: &mut Monitor, reg: &[Entry], inputs: u64, miri: bool) {
         for i in 0..inputs {
             let mode = if i % 3 == 2 { Mode::Lattice } else { Mode::Ordinary };
             let sd = vcommon::rng::mix(seed, i);
-            let mut s0 = Src::new(sd, mode);
+            let mut s0 = { let mut s0 = Src::new(sd, mode); s0.index_range = 5; s0 };
             let base = catch_unwind(AssertUnwindSafe(|| (e.call)(&mut s0)));
             let plist: &[(u32, &str)] = if miri { &POISONS[7..9] } else { &POISONS };
             for (pi, (bits, pname)) in plist.iter().enumerate() {
                 let route = ((i as usize + pi) % 3) as u8;
-                let mut s1 = Src::new(sd, mode);
+                let mut s1 = { let mut s0 = Src::new(sd, mode); s0.index_range = 5; s0 };
                 s1.hidden = Hidden::Poison { bits: *bits, route };
                 let got = catch_unwind(AssertUnwindSafe(|| (e.call)(&mut s1)));
                 c.event((pi as u64) << 8 | route as u64 | ((mode == Mode::Lattice) as u64) << 4, true);
@@ -84,7 +84,7 @@ fn single_calls(mon: &mut Monitor, reg: &[Entry], inputs: u64, miri: bool) {
             // operands of one call with *different* hidden lanes (e.g. `==` of two masks, a product of two vectors)
             if !miri || i == 0 {
                 for k in 0..if miri { 1 } else { 3 } {
-                    let mut s1 = Src::new(sd, mode);
+                    let mut s1 = { let mut s0 = Src::new(sd, mode); s0.index_range = 5; s0 };
                     s1.hidden = Hidden::Mixed { start: (i as u32).wrapping_mul(7).wrapping_add(k * 3) };
                     let got = catch_unwind(AssertUnwindSafe(|| (e.call)(&mut s1)));
                     c.event(0xf000 | k as u64, true);
@@ -126,6 +126,7 @@ fn programs(mon: &mut Monitor, reg: &[Entry]) {
             let run = |hidden: Hidden| -> Vec<Result<Out, ()>> {
                 let mut s = Src::new(sd, Mode::Ordinary);
                 s.pool_prob = 0.6;
+                s.index_range = 4;
                 s.hidden = hidden;
                 prog.iter().map(|&i| catch_unwind(AssertUnwindSafe(|| (reg[i].call)(&mut s))).map_err(|_| ())).collect()
             };
